@@ -515,7 +515,7 @@ Proof.
     intros E. inversion E; subst o. clear E. cbn [tpos tend ttok tlit sc unit].
     assert (SRC' : src = (pre ++ b :: u) ++ [] ++ rest (sc st)) by (rewrite SRC, <- app_assoc; reflexivity).
     pose proof (@zlen_nil N) as ZN.
-    split; [exists (pre ++ b :: u); split; [exact SRC'|rewrite zlen_app; lia]|].
+    split; [exists (pre ++ b :: u); cbn [sc unit]; split; [exact SRC'|rewrite zlen_app; lia]|].
     pose proof (zlen_nonneg (b :: u)). pose proof (zlen_nonneg (rest (sc st))).
     split; [lia|]. split; [lia|]. split; [lia|].
     split; [rewrite SRC, !zlen_app; lia|]. split; [|split].
@@ -539,20 +539,20 @@ Lemma scan_all_chain src cm fuel st acc toks errs :
   inv src st -> scan_all ul ud XGo fuel cm st acc = Ok (toks, errs) ->
   exists new, toks = rev acc ++ new /\ chain XGo src cm (front st) new /\ ends_eof src new.
 Proof.
-  revert st acc. induction fuel as [|f IH]; intros st acc I; cbn [scan_all]; [discriminate|].
+  revert st acc toks errs. induction fuel as [|f IH]; intros st acc toks errs I; cbn [scan_all]; [discriminate|].
   destruct (step ul ud XGo cm st) as [[t st'|st']| |] eqn:E; try discriminate.
   - pose proof (step_spec src cm st _ I E) as (I' & F1 & F2 & F3 & F4 & BL & LK & EO).
     destruct (ttok t) eqn:T;
-      try (intros H; destruct (IH _ _ I' H) as (new & -> & C & (ts & e & -> & TE & PE & FA));
+      try (intros H; destruct (IH _ _ _ _ I' H) as (new & -> & C & (ts & e & -> & TE & PE & FA));
            exists (t :: ts ++ [e]); split; [cbn [rev]; rewrite <- app_assoc; reflexivity|];
            split; [constructor; try assumption; [intros _; exact BL|rewrite F3; exact C]|];
            exists (t :: ts), e; split; [reflexivity|]; split; [exact TE|]; split; [exact PE|]; constructor; [congruence|exact FA]).
     (* EOF *)
     intros H; inversion H; subst. exists [t]. split; [reflexivity|]. split.
     + constructor; try assumption; [intros _; exact BL|constructor].
-    + exists [], t. split; [reflexivity|]. split; [exact T|]. split; [apply EO, T|constructor].
+    + exists [], t. split; [reflexivity|]. split; [exact T|]. split; [apply EO; reflexivity|constructor].
   - pose proof (step_spec src cm st _ I E) as (I' & F1 & CM). subst cm.
-    intros H. destruct (IH _ _ I' H) as (new & -> & C & EE). exists new. split; [reflexivity|].
+    intros H. destruct (IH _ _ _ _ I' H) as (new & -> & C & EE). exists new. split; [reflexivity|].
     split; [eapply chain_weaken; eassumption|exact EE].
 Qed.
 
@@ -569,15 +569,13 @@ Qed.
 Lemma decode_not_bom r : fst (decode r) <> bom -> bom_len r = 0.
 Proof.
   intros H. unfold bom_len. destruct r as [|b0 [|b1 [|b2 t]]]; try reflexivity.
-  destruct (N.eq_dec b0 239); [|destruct b0 as [|p]; try reflexivity; repeat (destruct p; try reflexivity); congruence].
-  destruct (N.eq_dec b1 187); [|subst; destruct b1 as [|p]; try reflexivity; repeat (destruct p; try reflexivity); congruence].
-  destruct (N.eq_dec b2 191); [|subst; destruct b2 as [|p]; try reflexivity; repeat (destruct p; try reflexivity); congruence].
-  subst. exfalso. apply H. reflexivity.
+  destruct ((b0 =? 239) && (b1 =? 187) && (b2 =? 191))%N eqn:B; [|reflexivity].
+  exfalso. apply H. assert (b0 = 239%N /\ b1 = 187%N /\ b2 = 191%N) as (-> & -> & ->) by lia. reflexivity.
 Qed.
 
 Lemma init_inv src : inv src (init src) /\ front (init src) = bom_len src.
 Proof.
-  unfold init, inv, front. cbn [sc unit]. rewrite zlen_nil.
+  unfold init, inv, front. cbn [sc unit]. rewrite ?(@zlen_nil N).
   set (s0 := mkS 0 src (arrive 0 src) 0).
   destruct (cur s0 =? bom) eqn:B.
   - assert (fst (decode src) = bom) by (unfold cur in B; cbn [rest s0] in B; lia).
@@ -585,7 +583,7 @@ Proof.
     + exists [239; 187; 191]%N. cbn [app]. rewrite nxt_rest, nxt_off. cbn [rest off s0]. rewrite W. cbn. split; reflexivity.
     + rewrite nxt_off. cbn [rest off s0]. rewrite W. reflexivity.
   - assert (fst (decode src) <> bom) by (unfold cur in B; cbn [rest s0] in B; lia).
-    split; [exists []; cbn [app rest off s0]; rewrite zlen_nil; split; reflexivity|].
+    split; [exists []; cbn [app rest off s0]; rewrite ?(@zlen_nil N); split; reflexivity|].
     cbn [off s0]. rewrite (decode_not_bom _ H). reflexivity.
 Qed.
 
